@@ -87,6 +87,7 @@ int main(void)
     memcpy(sidCopy, sid, sizeof(*sid));
     r = connectOnce(sidCopy, v_tls_1_2, TLS_RSA_WITH_AES_128_CBC_SHA, NULL, NULL);
     printf("  t=0        same id again: server resumed=%d (expected 1)\n", r);
+    if (r != 1) { printf("BROKEN: honest session id resumption failed\n"); return 3; }
 
     g_skewSecs = 2 * 86400;
     memcpy(sidCopy, sid, sizeof(*sid));
@@ -128,6 +129,7 @@ int main(void)
         printf("  %s same ticket: server resumed=%d (expected %d), data ok=%d\n", label, r, expect, ok);
 
         TRY("t=+10 s      ", 10, 1);
+        if (r != 1) { printf("BROKEN: honest TLS 1.3 resumption failed\n"); return 3; }
         TRY("t=+1 hour    ", 3600, 0);
         TRY("t=+30 days   ", 30LL * 86400, 0);
         TRY("t=2^32ms+60s ", 4294967LL + 60, 0);
@@ -138,5 +140,6 @@ int main(void)
             violations++;
         }
     }
+    if (!violations) { printf("OK: expired cache entries and tickets stay expired\n"); }
     return violations ? 1 : 0;
 }
